@@ -117,4 +117,37 @@ theorem C02_text (fs : FS) (cwd : PathC) (prog : Program) (tr : List Event) (rnd
       (Spec.assembleItems [] (items.map (fun x => x.stmt.item)) = .ok bytes ∧ k' = k)) :=
   ⟨preprocess_prog fs cwd prog tr head items h fuel (by omega), assemble_prog rnd fuel k items hf bytes k'⟩
 
+open Asm.Layout Asm.ExprText Asm.ProgText in
+-- non-vacuity of `C02_text` / `C01_text`: a label, a `push2` over it (with a comment made of a separator and a statement),
+-- a `%push` and an unterminated instruction form a well-formed program text
+-- `a:` / `push2 a + 0x0100 # c;pc` / `%push( a*2 );jumpdest`
+example : ProgText.WF []
+    [⟨[], .label [97] [], .line [] none false []⟩,
+     ⟨[], .pushE 2 32 (.mk (.label [97]) (.cons [32] .plus [32] (.num .hex [48, 49, 48, 48]) .nil)), .line [32] (some [32, 99, 59, 112, 99]) false []⟩,
+     ⟨[], .apush [32] (.mk (.label [97]) (.cons [] .times [] (.num .dec [50]) .nil)) [32], .semi [] []⟩,
+     ⟨[], .ins ⟨0x5b, []⟩, .open_ [] none⟩] := by
+  refine ⟨(by intro b hb; cases hb), ?_, ?_⟩
+  · intro x hx
+    simp only [List.mem_cons, List.mem_nil_iff, or_false] at hx
+    rcases hx with rfl | rfl | rfl | rfl
+    · simp [ProgText.Stmt.WF, Layout.IsBlanks, ExprText.IsBlanks, Layout.Term.WF, ExprText.IsLabel, isAlpha]
+    · refine ⟨by simp [Layout.IsBlanks], ⟨by decide, by decide, Or.inl rfl, ?_, ?_⟩, ?_⟩
+      · simp [TSeq.WF, TRest.WF, TTerm.WF, ExprText.IsLabel, ExprText.IsBlanks, isAlpha, toDigit, Radix.minDigits, Radix.base]
+      · -- the operand mentions a label: it is not closed, so the parser's constant range check does not apply
+        intro fuel v h
+        cases fuel with
+        | zero => simp [evalClosed] at h
+        | succ f =>
+          simp only [TSeq.expr, TRest.list, TTerm.expr] at h
+          cases f with
+          | zero => simp [climb, climbRec, climbInner, BinOp.mk, BinOp.prec, evalClosed] at h
+          | succ g => simp [climb, climbRec, climbInner, BinOp.mk, BinOp.prec, evalClosed] at h
+      · simp [Layout.Term.WF, Layout.IsBlanks, IsCommentBody]
+    · simp [ProgText.Stmt.WF, Layout.IsBlanks, ExprText.IsBlanks, Layout.Term.WF, TSeq.WF, TRest.WF, TTerm.WF, ExprText.IsLabel, isAlpha,
+        toDigit, Radix.minDigits, Radix.base]
+    · refine ⟨by simp [Layout.IsBlanks], ?_, by simp [Layout.Term.WF, Layout.IsBlanks]⟩
+      show Listing.Valid ⟨0x5b, []⟩
+      decide
+  · simp [ProgText.OpenOnlyLast, Layout.Term.isOpen]
+
 end EtkVerif.C02
